@@ -196,7 +196,14 @@ class BaseStorage(UndoLogCompatible):
 
             user = transaction.user
             desc = transaction.description
-            ext = transaction.extension_bytes
+            try:
+                ext = transaction.extension_bytes
+            except AttributeError:
+                # A transaction record iterated from a storage that keeps
+                # extensions as objects only (MappingStorage), handed to
+                # us by copyTransactionsFrom.
+                ext = TransactionMetaData(
+                    user, desc, transaction.extension).extension_bytes
 
             self._ude = user, desc, ext
 
